@@ -14,7 +14,7 @@ use std::fs::Permissions;
 use std::os::raw::{c_char, c_int, c_uint};
 use std::os::unix::ffi::OsStrExt;
 use std::os::unix::fs::PermissionsExt;
-use std::os::unix::io::{BorrowedFd, FromRawFd, IntoRawFd, OwnedFd};
+use std::os::unix::io::{AsRawFd, BorrowedFd, FromRawFd, IntoRawFd, OwnedFd};
 use std::path::Path;
 use std::sync::atomic::{AtomicI32, Ordering};
 
@@ -107,6 +107,13 @@ pub enum Op {
     Rename { src: String, dst: String, flags: u32 },
     /// reopen the descriptor in slot `slot`
     Reopen { slot: usize, flags: i32 },
+    /// The whole scenario runs in a caller thread that has a *private*
+    /// descriptor table (unshare(CLONE_FILES)): the thread opens `path` of the
+    /// world itself (descriptor n, only in its own table), asks the supervisor
+    /// to put a decoy at number n in the thread-group leader's table
+    /// (`plant`), reopens n through libpathrs (Rust or C facade) and compares
+    /// inodes itself. Outcome::Harness(0) = same inode, (1) = another inode.
+    ReopenPrivateTable { path: String, flags: i32, plant: bool },
     /// procfs through handle `handle` (None = global handle, C facade only)
     ProcOpen { handle: Option<usize>, base: Base, path: String, flags: i32, follow: bool },
     ProcReadlink { handle: Option<usize>, base: Base, path: String, bufsz: i64 },
@@ -176,6 +183,7 @@ impl OpSpec {
             Op::RemoveAll { .. } => "remove_all",
             Op::Rename { .. } => "rename",
             Op::Reopen { .. } => "reopen",
+            Op::ReopenPrivateTable { .. } => "reopen",
             Op::ProcOpen { follow: true, .. } => "proc_open_follow",
             Op::ProcOpen { follow: false, .. } => "proc_open",
             Op::ProcReadlink { .. } => "proc_readlink",
@@ -219,6 +227,7 @@ impl OpSpec {
             Op::RemoveAll { path } => json!(["remove_all", path]),
             Op::Rename { src, dst, flags } => json!(["rename", src, dst, flags]),
             Op::Reopen { slot, flags } => json!(["reopen", slot, flags]),
+            Op::ReopenPrivateTable { path, flags, plant } => json!(["reopen_private_table", path, flags, plant]),
             Op::ProcOpen { handle, base, path, flags, follow } => {
                 json!(["proc_open", handle, base_to_json(*base), path, flags, follow])
             }
@@ -278,6 +287,7 @@ impl OpSpec {
             "remove_all" => Op::RemoveAll { path: s(1) },
             "rename" => Op::Rename { src: s(1), dst: s(2), flags: n(3) as u32 },
             "reopen" => Op::Reopen { slot: n(1) as usize, flags: n(2) as i32 },
+            "reopen_private_table" => Op::ReopenPrivateTable { path: s(1), flags: n(2) as i32, plant: a.get(3).and_then(|x| x.as_bool()).unwrap_or(false) },
             "proc_open" => Op::ProcOpen {
                 handle: a.get(1).and_then(|x| x.as_u64()).map(|x| x as usize),
                 base: base_from_json(a.get(2)?),
@@ -530,6 +540,52 @@ fn harness_op(spec: &OpSpec) -> Option<Outcome> {
             Some(Outcome::Harness(r))
         }
         Op::Sup { .. } => Some(Outcome::Harness(0)), // done by the supervisor at BEGIN_OP
+        Op::ReopenPrivateTable { path, flags, plant } => {
+            seam::hypercall(seam::HC_HARNESS, 0, 1);
+            let n = unsafe {
+                libc::unshare(libc::CLONE_FILES);
+                let p = std::ffi::CString::new(format!("/mnt/w/root/{path}")).unwrap();
+                libc::openat(libc::AT_FDCWD, p.as_ptr(), libc::O_PATH | libc::O_NOFOLLOW | libc::O_CLOEXEC)
+            };
+            if n < 0 {
+                seam::hypercall(seam::HC_HARNESS, 0, 0);
+                return Some(Outcome::Harness(-2));
+            }
+            if *plant {
+                seam::hypercall(seam::HC_PLANT, n as u64, 1);
+            }
+            seam::hypercall(seam::HC_HARNESS, 0, 0);
+            let res: Result<OwnedFd, Outcome> = match spec.facade {
+                Facade::Rust => {
+                    let h = HandleRef::from_fd(unsafe { BorrowedFd::borrow_raw(n) });
+                    h.reopen(OpenFlags::from_bits_retain(*flags)).map(OwnedFd::from).map_err(rust_err)
+                }
+                Facade::C => {
+                    let r = unsafe { pathrs_reopen(n, *flags) };
+                    if r >= 0 {
+                        Ok(unsafe { OwnedFd::from_raw_fd(r) })
+                    } else {
+                        Err(c_ret(r, true, None))
+                    }
+                }
+            };
+            seam::hypercall(seam::HC_HARNESS, 0, 1);
+            let out = match res {
+                Ok(fd) => {
+                    let (mut a, mut b): (libc::stat, libc::stat) = unsafe { (std::mem::zeroed(), std::mem::zeroed()) };
+                    let same = unsafe { libc::fstat(n, &mut a) == 0 && libc::fstat(fd.as_raw_fd(), &mut b) == 0 && a.st_dev == b.st_dev && a.st_ino == b.st_ino };
+                    drop(fd);
+                    Outcome::Harness(if same { 0 } else { 1 })
+                }
+                Err(o) => o,
+            };
+            unsafe { libc::close(n) };
+            if *plant {
+                seam::hypercall(seam::HC_PLANT, n as u64, 0);
+            }
+            seam::hypercall(seam::HC_HARNESS, 0, 0);
+            Some(out)
+        }
         Op::CloseSlot { slot: s } => {
             let fd = slot(*s);
             if fd >= 0 {
